@@ -508,6 +508,15 @@ func c09Inputs(svc string, r *Rng) [][]byte {
 		ins = append(ins, ldapBindReq(1, "cn=root", "pw"), append(ldapBindReq(1, "", ""), ldapOpReq(2, 0x4a)...), ldapBindReq(1, "cn=root", "pw")[:9])
 	case "vnc":
 		ins = append(ins, []byte("RFB 003.008\n"), []byte("RFB 003.008\n\x01\x01"), append([]byte("RFB 003.008\n\x01\x01"), []byte{0, 0, 0, 0, 32, 24, 0, 1, 0, 255, 0, 255, 0, 255, 16, 8, 0, 0, 0, 0, 3, 0, 0, 0, 0, 0, 0, 100, 0, 100}...))
+		// a pixel format the frame pusher cannot encode (no true colour), then more update requests than its queue holds, in
+		// one burst
+		{
+			b := append([]byte("RFB 003.008\n\x01\x01"), []byte{0, 0, 0, 0, 8, 8, 0, 0, 0, 7, 0, 7, 0, 3, 0, 3, 6, 0, 0, 0}...)
+			for i := 0; i < 300; i++ {
+				b = append(b, 3, byte(i%2), 0, 0, 0, 0, 0, 100, 0, 100)
+			}
+			ins = append(ins, b)
+		}
 	case "ssh-auth", "ssh-simulator":
 		ins = append(ins, []byte("SSH-2.0-OpenSSH_8.0\r\n"), append([]byte("SSH-2.0-x\r\n"), r.Bytes(64)...))
 	case "adb":
